@@ -77,6 +77,7 @@ def run(ctx):
 
     check_ops_before_open(P, ctx)
     check_drain_loops(P, ctx, tables)
+    check_active_fd_share(P, ctx)
     check_fd_ownership(P, ctx)
     check_owner_false(P, ctx, tables)
     check_resource_asserts(P, ctx)
@@ -1103,3 +1104,36 @@ def check_drain_loops(P, ctx, tables):
                     r.ok("%s: the loop ends only when %s says the collection is empty" % (f.qname, f.show(cond)[:50]), "loop condition vs. the remover's effect")
     if n < 1:
         raise Broken("C08.R11: no draining loop found on the close/cleanup path (ctl_destroy expected)")
+
+
+def check_active_fd_share(P, ctx):
+    """R12: the always-readable descriptor is shared by a bounded number of epoll instances.  Trusted (fs/eventpoll.c,
+    path_limits[]): a file may be watched through nested epoll instances by at most 1000/500/100/50/10 paths of depth
+    1..5; an application that keeps xcm_fd() in its own epoll instance, itself watched by another, is at depth 3: 100.
+    Beyond that EPOLL_CTL_ADD fails with EINVAL - which reg_epoll_mod answers with an assertion (see K2)."""
+    r = ctx.rule("C08.R12", "no always-readable descriptor is shared by more epoll instances than the kernel's path limit for nested epoll (100)")
+    LIMIT = 100
+    n = 0
+    for f in P.fns_in("tp/common/active_fd.c"):
+        for b, cond in C.cond_blocks(f):
+            l, op, rr = C.cond_atom(f, cond, True)
+            if isinstance(rr, tuple) or f.sn(l)["k"] != "member":
+                continue
+            k = C.const_of(f, rr)
+            if k is None or k < 2 or op not in ("<", "<="):
+                continue
+            # the T edge hands out the shared descriptor once more
+            shares = any(m["k"] == "un" and m["op"] in ("++", "post++") and f.fields_of(m["sub"])[-1:] == f.fields_of(l)[-1:]
+                         for bb in C.only_via_edge(f, b, "T") for e in f.blocks[bb].elems for m in [f.nodes[e]])
+            if not shares:
+                continue
+            n += 1
+            users = k if op == "<" else k + 1
+            r.instance("%s: %s" % (f.qname, f.show(cond)))
+            if users <= LIMIT:
+                r.ok("%s: at most %d users per descriptor" % (f.qname, users), "constant vs. the kernel's limit")
+            else:
+                r.violation("%s:share-limit" % f.name, "one always-readable descriptor is handed to up to %d sockets: from the %dst epoll instance on (with xcm_fd() watched "
+                            "through a nested epoll instance) EPOLL_CTL_ADD fails with EINVAL and the process is aborted by reg_epoll_mod's assertion" % (users, LIMIT + 1), loc=f.loc(cond))
+    if n < 1:
+        raise Broken("C08.R12: the sharing test of active_fd.c was not found")
